@@ -11,7 +11,7 @@ from common import (CACHE, REPO, VERIF, build_oracle, log, machinery_hash, repo_
 
 FN_NAMES = {401: "built-in Contiguous impl: from_integer / into_integer", 402: "derived Contiguous enum vs default-method twin",
             410: "trait census row"}
-PROPS = {"C17": {401, 402}, "C04": {410}}
+PROPS = {"C17": {401, 402}, "C04": {410, 401}}
 
 
 def sync(src, dst, rels):
@@ -92,8 +92,14 @@ def transcripts(tier, seed=1, which=("contig",)):
 def parse_case(line):
     parts = [x.strip() for x in line.split(";")]
     c = parts[0].split()
-    return {"fn": int(c[0]), "fn_name": FN_NAMES.get(int(c[0]), "?"), "bits": int(c[2]), "signed": int(c[3]), "text": c[9],
-            "observed": parts[1] if len(parts) > 1 else "", "line": line.strip()}
+    d = {"fn": int(c[0]), "fn_name": FN_NAMES.get(int(c[0]), "?"), "bits": int(c[2]), "signed": int(c[3]), "text": c[9],
+         "observed": parts[1] if len(parts) > 1 else "", "line": line.strip()}
+    if d["fn"] == 401 and c[9] != "-":
+        try:
+            d["type_name"] = bytes.fromhex(c[9]).decode()
+        except ValueError:
+            pass
+    return d
 
 
 def findings(res, prop):
